@@ -205,7 +205,7 @@ MEEM_VARIANTS = ['measured', 'measured-max575', 'measured-max925', 'measured-nan
 
 def sublattices(tier, seed):
     isa_alts = altitudes(tier, seed)
-    alts = altitudes(tier, seed, step=500.0 if tier == 'thorough' else 1000.0)
+    alts = altitudes(tier, seed)
     cert = list(CERT_ALL) if tier == 'thorough' else CERT_QUICK
     subs = []
     forms = ['scalar', 'array1', 'mixed']
